@@ -140,7 +140,7 @@ theorem afterSign_nonsep (s : List Nat) (neg : Bool) (b : Bytes) (h : afterSign 
           have hid := peek_idem c .integer b0 b2 x a3 hp hsx (fun y hy => isDigit_sep H y hy)
           exact parseNumber_not_ok_on_sep H p b2 ng fv x c2 hid hsx hm r hpn
 
-/-- **`partial_prefix`, number results, formats with digit-separator flags** (release build, no base prefix): every
+/-- **`partial_prefix`, number results, formats with digit-separator flags** (release build): every
 input, under `SepCfg` -/
 theorem partial_prefix_sep_number_g (s : List Nat) (fv : Bool) (x : Number) (cnt : Nat)
     (hm : c.requiredMantissaDigits = true)
